@@ -550,6 +550,41 @@ def call_forwards(eps, cls_of):
     return out
 
 
+# ------------------------------------------------------------------ PATH requests and database row presentation
+# entry points that present a public view by the VALUE of an argument (a path that starts with 'M'); kept apart from
+# ENTRY_POINTS because their parameters are not requests for private output by name
+PATH_ENTRY_POINTS = (('HDKey', ('subkey_for_path',)),)
+# every method through which an object of db.py can end up as text in a default export (str / repr / format of a row
+# that sits in a row dictionary, json default=str, pickling hooks)
+PRESENTATION_METHODS = ('__repr__', '__str__', '__format__', '__unicode__', '__bytes__', '__json__', '__iter__', '__getitem__',
+                        '__getattr__', '__getattribute__', '__getstate__', '__reduce__', '__reduce_ex__', 'as_dict', 'as_json',
+                        'to_dict', 'to_json', '__html__', '_repr_pretty_', '_repr_html_')
+
+
+def db_presentation_methods(db_tree):
+    """(Class.method, source on one line) for every presentation method of EVERY class of db.py, plus one row
+    (Class, "-") per class so that a class without any is listed too; module-level monkey patching of such a method
+    (`DbKey.__repr__ = ...`, setattr) is not understood -> raise."""
+    out = []
+    for n in ast.walk(db_tree):
+        for t in targets_of(n):
+            if isinstance(t, ast.Attribute) and t.attr in PRESENTATION_METHODS:
+                raise Shape('db.py assigns %s' % ast.unparse(t))
+        if isinstance(n, ast.Call) and isinstance(n.func, ast.Name) and n.func.id == 'setattr':
+            raise Shape('db.py uses setattr()')
+    for cname, cls in classes(db_tree).items():
+        out.append((cname, '-'))
+        for m in cls.body:
+            if isinstance(m, (ast.FunctionDef, ast.AsyncFunctionDef)) and m.name in PRESENTATION_METHODS:
+                body = '; '.join(flat(st) for st in strip_doc(m.body))
+                out.append(('%s.%s' % (cname, m.name), body))
+            # a presentation method bound by assignment inside the class body (__str__ = __repr__, = some_function)
+            for t in targets_of(m):
+                if isinstance(t, ast.Name) and t.id in PRESENTATION_METHODS:
+                    out.append(('%s.%s' % (cname, t.id), '= ' + flat(m.value)))
+    return out
+
+
 def generate(repo):
     src = {}
     for f in ('keys', 'wallets', 'db'):
@@ -621,6 +656,14 @@ def generate(repo):
     out.append(paths_def('hdkey_public_master_multisig_paths', return_paths(kc['HDKey'], 'public_master_multisig')))
     out.append(paths_def('hdkey_wif_public_paths', return_paths(kc['HDKey'], 'wif_public')))
     out.append(paths_def('hdkey_wif_paths', return_paths(kc['HDKey'], 'wif')))
+    # PATH requests (subkey_for_path with a path that starts with 'M') and the presentation methods of the database rows
+    out.append(paths_def('hdkey_subkey_for_path_paths', return_paths(kc['HDKey'], 'subkey_for_path')))
+    out.append(deflist('path_entry_params', '(string * list (string * string))',
+                       [pair(S(c + '.' + n), '[' + '; '.join(pair(S(p), S(d)) for p, d in
+                                                             params_of(one(kc[c], n), c + '.' + n)) + ']')
+                        for c, names in PATH_ENTRY_POINTS for n in names]))
+    out.append(deflist('db_presentation_methods', '(string * string)',
+                       [pair(S(a), S(b)) for a, b in db_presentation_methods(src['db'])]))
     return {'GenFields.v': '\n'.join(out)}
 
 
@@ -632,7 +675,11 @@ def entry_point_params(repo):
         src[f] = ast.parse(open(os.path.join(repo, 'bitcoinlib', f + '.py'), encoding='utf8').read())
     kc, wc = classes(src['keys']), classes(src['wallets'])
     eps, _ = entry_points(kc, wc, src)
-    return {q: (None if is_property(fn) else params_of(fn, q)) for q, _, fn in eps}
+    out = {q: (None if is_property(fn) else params_of(fn, q)) for q, _, fn in eps}
+    for c, names in PATH_ENTRY_POINTS:
+        for n in names:
+            out[c + '.' + n] = params_of(one(kc[c], n), c + '.' + n)
+    return out
 
 
 if __name__ == '__main__':
